@@ -15,14 +15,14 @@ RECURSIVE NameOf(_, _)
 NameOf(S, i) == IF i > NMenu THEN "" ELSE (IF i \in S THEN "_" \o ToString(i) ELSE "") \o NameOf(S, i + 1)
 
 \* a seeded random tree: every child present with probability 2/3, random value classes
-RECURSIVE RandKids(_, _)
-RandKids(kids, wide) ==
-  LET pick == [i \in 1..Len(kids) |-> IF RandomElement(1..3) = 1 THEN NoTree ELSE RandomElement(TreesOf(kids[i], wide))]
-  IN SelectSeq(pick, LAMBDA t : t # NoTree)
+RandKids(psn, wide) ==
+  LET kids == psn.kids
+      pick == [i \in 1..Len(kids) |-> IF RandomElement(1..3) = 1 THEN NoTree ELSE RandomElement(TreesOf(kids[i], wide))]
+  IN KeepCase(psn, SelectSeq(pick, LAMBDA t : t # NoTree), 1)
 RandTree(S) ==
   LET sn == Schema(S)
       top == [i \in 1..Len(sn.kids) |->
-                LET ks == RandKids(sn.kids[i].kids, FALSE) IN
+                LET ks == RandKids(sn.kids[i], FALSE) IN
                 IF ks = << >> THEN NoTree ELSE N(sn.kids[i].n, << >>, ks)]
   IN N("root", << >>, SelectSeq(top, LAMBDA t : t # NoTree))
 
@@ -33,7 +33,7 @@ TreeLines(S) ==
   ELSE [i \in 1..RandPer |-> [kind |-> "tree", t |-> RandTree(S)]]
 \* sized trees: every collection with n entries, three fixed arrangements of the children and a seeded random one;
 \* for the schema-order arrangement also the XML document with the entries interleaved with their siblings
-SizesOf(S) == IF Cardinality(S) >= ManyMin THEN SizesMany ELSE Sizes
+SizesOf(S) == IF Cardinality(S) >= ManyMin \/ \E i \in S : i > SizedFullMax THEN SizesMany ELSE Sizes
 SizedLines(S) == SetToSeq({[kind |-> "tree", t |-> t] : t \in SizedTrees(S, SizesOf(S), {1, 2, 3, 4})})
 RiffleLines(S) == SetToSeq({[kind |-> "mut", enc |-> "xml", toks |-> << >>, xtoks |-> XToks(XRiffle(EncX(Schema(S), t)))]
                               : t \in SizedTrees(S, SizesOf(S), {1, 4})})
@@ -49,6 +49,13 @@ MutLines(S) ==
           : t \in FullTrees(S)}
           \cup (IF FullTrees(S) = {} THEN {}
                 ELSE {[kind |-> "mut", enc |-> "xml", toks |-> << >>, xtoks |-> m] : m \in XNsMutants(EncX(sn, BigTree(S)))}))
+\* values / content of the wrong shape at every position of the three encodings of the largest full tree
+ShapeLines(S) ==
+  IF Cardinality(S) > MutMax \/ FullTrees(S) = {} THEN << >>
+  ELSE LET sn == Schema(S)  t == BigTree(S) IN
+       SetToSeq({[kind |-> "mut", enc |-> "rfc", toks |-> m, xtoks |-> << >>] : m \in JShapeMutants(EncJ(TRUE, sn, t))}
+                \cup {[kind |-> "mut", enc |-> "json", toks |-> m, xtoks |-> << >>] : m \in JShapeMutants(EncJ(FALSE, sn, t))}
+                \cup {[kind |-> "mut", enc |-> "xml", toks |-> << >>, xtoks |-> m] : m \in XShapeMutants(EncX(sn, t))})
 FuzzLines ==
   <<SchemaLine(FuzzItems), [kind |-> "jalpha", toks |-> JAlphabet], [kind |-> "xalpha", xtoks |-> XAlphabet]>>
   \o [i \in 1..Len(JContexts) |-> [kind |-> "jctx", pre |-> JContexts[i].pre, suf |-> JContexts[i].suf]]
@@ -58,5 +65,5 @@ FuzzLines ==
 GInit == si \in Sets \cup (IF Fuzz THEN {{}} ELSE {}) /\ done = FALSE
 GNext == /\ ~done /\ done' = TRUE /\ UNCHANGED si
          /\ IF si = {} THEN ndJsonSerialize("fuzz.ndjson", FuzzLines)
-            ELSE ndJsonSerialize("vec" \o NameOf(si, 1) \o ".ndjson", <<SchemaLine(si)>> \o TreeLines(si) \o SizedLines(si) \o MutLines(si) \o RiffleLines(si))
+            ELSE ndJsonSerialize("vec" \o NameOf(si, 1) \o ".ndjson", <<SchemaLine(si)>> \o TreeLines(si) \o SizedLines(si) \o MutLines(si) \o ShapeLines(si) \o RiffleLines(si))
 =============================================================================
